@@ -66,7 +66,7 @@ func c09Counts(tier string) int64 {
 	if tier == "thorough" {
 		return 60000
 	}
-	return 2500
+	return 8000
 }
 
 func init() {
